@@ -137,12 +137,21 @@ def mutate(doc, path, how):
 SKIP = {("paths//things/{id}/post/requestBody/content/application/x-www-form-urlencoded/schema/properties", "empty"),
         ("paths//things/{id}/post/requestBody/content/application/x-www-form-urlencoded/schema/properties", "delete"),
         ("paths//things/{id}/post/requestBody/content/application/x-www-form-urlencoded/schema/properties/a", "delete")}
+# third document (added after a seed agent reported generator crashes on the unchanged tree): pattern properties next
+# to declared properties, tuple-typed arrays (items as a list), nested sums
+BASE3 = {"openapi": "3.0.3", "info": {"title": "t", "version": "1"}, "paths": {"/x": {"get": {"operationId": "getX", "responses": {"200": {"description": "ok", "content": {"application/json": {"schema": {
+    "type": "object", "properties": {"a": {"type": "string"}, "t": {"type": "array", "items": [{"type": "string"}, {"type": "integer"}]},
+                                     "u": {"oneOf": [{"type": "string"}, {"type": "array", "items": {"type": "integer"}}]}},
+    "patternProperties": {"^b": {"type": "string"}, "^c": {"type": "integer"}}}}}}}}}}}
 tier = sys.argv[1] if len(sys.argv) > 1 else "quick"
-pkgs = [{"name": "base", "spec": json.dumps(BASE)}, {"name": "base2", "spec": json.dumps(BASE2)}]
+pkgs = [{"name": "base", "spec": json.dumps(BASE)}, {"name": "base2", "spec": json.dumps(BASE2)}, {"name": "base3", "spec": json.dumps(BASE3)}]
+# two self-recursive components that share a property name, merged by allOf (a reference cycle behind a merge)
+pkgs.append({"name": "allofrecmerge", "isolate": True, "spec": json.dumps({"openapi": "3.0.3", "info": {"title": "t", "version": "1"}, "paths": {"/x": {"get": {"responses": {"200": {"description": "ok", "content": {"application/json": {"schema": {"allOf": [{"$ref": "#/components/schemas/A"}, {"$ref": "#/components/schemas/B"}]}}}}}}}},
+    "components": {"schemas": {"A": {"type": "object", "properties": {"next": {"$ref": "#/components/schemas/A"}}}, "B": {"type": "object", "properties": {"next": {"$ref": "#/components/schemas/B"}}}}}})})
 hows = ["null", "empty", "retype", "delete"] if tier != "quick" else ["null", "retype"]
 n = 0
 nodes = 0
-for tag, doc in (("f", BASE), ("g", BASE2)):
+for tag, doc in (("f", BASE), ("g", BASE2), ("h", BASE3)):
     ps = paths(doc)
     nodes += len(ps)
     for i, p in enumerate(ps):
@@ -153,4 +162,4 @@ for tag, doc in (("f", BASE), ("g", BASE2)):
             pkgs.append({"name": "%s%d_%s" % (tag, i, how), "spec": json.dumps(d), "meta": {"path": "/".join(str(x) for x in p), "how": how}})
             n += 1
 print(json.dumps({"packages": pkgs, "cases": {"quick": [], "thorough": []},
-                  "bounds": {"faults": "%d single-node faults (%s) at every node of two documents (%d nodes) that use parameters in every location, content-typed parameters, headers, links, examples, pattern/default responses, multipart and url-encoded forms with encoding, security, servers with variables, and schemas with pattern / enum / default / oneOf / anyOf / allOf / discriminator / additionalProperties / patternProperties / recursion / most formats / 3.1 type arrays, const, webhooks, callbacks, pathItems components, oauth2 flows" % (n, ", ".join(hows), nodes)}}))
+                  "bounds": {"faults": "%d single-node faults (%s) at every node of three documents (%d nodes) that use parameters in every location, content-typed parameters, headers, links, examples, pattern/default responses, multipart and url-encoded forms with encoding, security, servers with variables, and schemas with pattern / enum / default / oneOf / anyOf / allOf / discriminator / additionalProperties / patternProperties / recursion / most formats / 3.1 type arrays, const, webhooks, callbacks, pathItems components, oauth2 flows" % (n, ", ".join(hows), nodes)}}))
